@@ -3,8 +3,15 @@
 (* Licences and insertions recorded from the real code on larger patterns  *)
 (* (length 3, sampled shadings), judged by their meaning over the universe *)
 (* U of permutations.                                                      *)
-(*   Licence(p,R,cells)     the code licensed shading `cells` (1 or 2)     *)
+(*   Licence(p,R,cells)     the code licensed shading `cells` (1, 2        *)
+(*                          or more; any cells, adjacent or not)           *)
 (*   AddPoint(p,R,c,dir,resp,resR)  result of add_point                    *)
+(*   AddTwo(p,R,c,kind,resp,resR)   result of add_increase / add_decrease  *)
+(*   Shade(p,R,cells,resp,resR)     result of shade called with the cells  *)
+(*   Rect(p,R,r,shaded,pointfree)   is_shaded / is_pointfree of the        *)
+(*                                  rectangle r = <<left,lower,right,upper>>*)
+(*   Ascii(p,R,s,rows)              ascii_plot(cell_size = s) parsed into  *)
+(*                                  a matrix of symbols                    *)
 (***************************************************************************)
 EXTENDS C18_Shading, IOUtils
 
@@ -21,6 +28,18 @@ TLicence == /\ Ev.op = "Licence"
 TAddPoint == /\ Ev.op = "AddPoint"
              /\ LET A == MAddPoint(EvM, Ev.c, Ev.dir) IN
                 bad' = IF A.p = Ev.resp /\ A.R = ToSetOf(Ev.resR) THEN bad ELSE Flag("AddPointIsDiagramInsertion")
-TNext == l <= Len(Trace) /\ l' = l + 1 /\ UNCHANGED vars /\ (TLicence \/ TAddPoint)
+TAddTwo == /\ Ev.op = "AddTwo"
+           /\ LET c == Ev.c
+                  A == MAddPoint(MAddPoint(EvM, c, "none"), IF Ev.kind = "inc" THEN <<c[1] + 1, c[2] + 1>> ELSE <<c[1] + 1, c[2]>>, "none") IN
+              bad' = IF A.p = Ev.resp /\ A.R = ToSetOf(Ev.resR) THEN bad ELSE Flag("AddPointIsDiagramInsertion")
+TShade == /\ Ev.op = "Shade"
+          /\ LET A == MShade(EvM, ToSetOf(Ev.cells)) IN
+             bad' = IF A.p = Ev.resp /\ A.R = ToSetOf(Ev.resR) THEN bad ELSE Flag("ShadeAddsCell")
+TRect == /\ Ev.op = "Rect"
+         /\ bad' = IF Ev.shaded # RectShadedOf(EvM, Ev.r) THEN Flag("RegionShaded")
+                    ELSE IF Ev.pointfree # RectPointFreeOf(EvM, Ev.r) THEN Flag("RegionPointFree") ELSE bad
+TAscii == /\ Ev.op = "Ascii"
+          /\ bad' = IF Ev.rows = AsciiOf(EvM, Ev.s) THEN bad ELSE Flag("RenderingFaithful")
+TNext == l <= Len(Trace) /\ l' = l + 1 /\ UNCHANGED vars /\ (TLicence \/ TAddPoint \/ TAddTwo \/ TShade \/ TRect \/ TAscii)
 TraceDone == l = Len(Trace) + 1 => PrintT(ToJson([verdict |-> bad, drift |-> <<>>, n |-> Len(Trace)]))
 =============================================================================
